@@ -4,6 +4,9 @@ import (
 	"fmt"
 	"strings"
 
+	"github.com/mdzio/go-mqtt/message"
+	"github.com/mdzio/go-mqtt/service"
+
 	"github.com/mdzio/go-mqtt/verifrt/vsched"
 	"verif/engine/explore"
 	"verif/harness/core"
@@ -84,6 +87,17 @@ func c05poison(c *core.Ctx) {
 					// a bystander that sees everything the broker publishes, wills included
 					b := t.connect("B", 0, 65535, false)
 					t.subscribe("B", "#", 1)
+					// ... and an in-process one (it is handed message objects, not packets: what does
+					// not encode never reaches a network client, but would reach this one)
+					var inproc []string
+					cb := service.OnPublishFunc(func(m *message.PublishMessage) error {
+						inproc = append(inproc, fmt.Sprintf("%q=%dB", m.Topic(), len(m.Payload())))
+						if len(m.Topic()) == 0 || strings.ContainsAny(string(m.Topic()), "+#\x00") {
+							vsched.Failf("an in-process subscriber of '#' was handed a message with the topic name %q (payload %d bytes)", m.Topic(), len(m.Payload()))
+						}
+						return nil
+					})
+					t.w.Svr.Subscribe("#", 1, &cb)
 					// two small retained messages, on either side of the attacker's will topic in any
 					// order the retained tree may be walked in
 					p.rc.Send(&refcodec.Packet{Type: refcodec.PUBLISH, Topic: []byte("keep/1"), Retain: true, Payload: []byte("kept-1")})
